@@ -842,10 +842,6 @@ impl<'r> Lowerer<'r> {
 
         let unit_tmp = self.tmp(TyRef::UNIT);
         for expr in list {
-            let list_var = Value::Clone(Place::new(tmp.clone(), ty));
-            let list_var = self.assign_to_var(list_var, ty);
-            self.remove_live_variable(&list_var);
-
             let elem = self.expr(expr);
             let elem_ty = self.type_info.type_of(expr);
             let elem_ty = self.type_info.convert(&elem_ty);
@@ -857,6 +853,14 @@ impl<'r> Lowerer<'r> {
                 elem_ty,
                 elem,
             );
+
+            // The handle that `push` consumes is cloned after the element has
+            // been evaluated: the element expression may leave the function
+            // (`?`, `return`), and a handle that is no longer a live variable
+            // at that point would never be dropped.
+            let list_var = Value::Clone(Place::new(tmp.clone(), ty));
+            let list_var = self.assign_to_var(list_var, ty);
+            self.remove_live_variable(&list_var);
 
             let func_ref =
                 self.find_method(TypeId::of::<ErasedList>(), "push");
